@@ -48,46 +48,17 @@ def agg_identifier_sets(ctx):
     v = FnView.get(P, f)
     refusal(ctx, f, "SEP", "G-ids:|commitments|==|shares|",
             [("len!=len", cmp_fact("eq", length(fld(arg(1), "signing_commitments")), length(arg(2)), False))], ok_sinks(f))
-    def allf(fa):
-        if not (fa[0] == "cond" and fa[1] in ("all", "any") and is_call(fa[2], name="keys") and fld(arg(1), "signing_commitments")(fa[2][2][0])
-                and fa[3] is not None and fa[3][0] == "closure"):
-            return None
-        # all(..) must hold / any(..) must not hold for the call to proceed
-        holds = fa[4]
-        return "pass" if holds == (fa[1] == "all") else "fail"
-    ok = refusal(ctx, f, "SEP", "G-ids:every-signer-has-a-share(all)", [("keys().all(..)/!any(..)", allf)], ok_sinks(f))
-    if not ok:
-        return
-    clos = [(fa[1], fa[3]) for (e, fa) in v.facts if allf(fa)]
-    good = bool(clos)
-    for kind, c in clos:
-        cf = P.fns.get(c[1])
-        if not cf or not any(arg(2)(x) for x in c[2]):
-            good = False
-            continue
-        idx = [n for n, x in enumerate(c[2]) if arg(2)(x)][0]
-        vc = FnView.get(P, cf)
-        shares = lambda t: t == ("field", ("arg", 1), None, str(idx))
-        has = lambda t: is_call(t, name="contains_key") and shares(t[2][0]) and t[2][1] == ("arg", 2)
-        proceed = (kind == "all")      # the closure value that lets this identifier through
-        true_edges = {e for (e, fa) in vc.facts if fa[0] == "cond" and fa[1] == "contains" and shares(fa[2]) and fa[3] == ("arg", 2) and fa[4]}
-        reach = cf.reach(0, removed=frozenset(true_edges))
-        for (b, k, w) in ret_writes(cf):
-            if k == "call":
-                t = vc.cx.call(w, (cf.key, b))
-                if proceed and has(t):
-                    continue
-            elif k == "other":
-                t = vc.cx.rvalue(w, (cf.key, b, 0))
-                if t[0] == "const" and isinstance(t[2], int) and bool(t[2]) != proceed:
-                    continue            # the value that refuses
-                if (not proceed) and t[0] == "un" and t[1] == "Not" and has(t[2]):
-                    continue
-                if proceed and has(t):
-                    continue
-            if b in reach:
-                good = False
-    ctx.check(good, "PROV", f.key, "G-ids:all-closure-implies-share-present",
+    # every signer of the package has a share filed under its identifier, in every detection mode: a per-element refusal over the
+    # keys of the commitment map (closure of all / !any, a loop, or either of them in an extracted helper)
+    from ..lib import _forall
+    keys_of_sc = lambda s_: is_call(s_, name="keys") and fld(arg(1), "signing_commitments")(s_[2][0])
+    r, why = _forall(P, v, keys_of_sc, [("shares.contains_key(id)", lambda item: cmp_fact("contains", arg(2), item, False))],
+                     ok_sinks(f), True, 0)
+    ctx.check(r is not None, "SEP", f.key, "G-ids:every-signer-has-a-share(all)",
+              "aggregate_custom can proceed for a signer whose identifier has no share filed under it (in some cheater-detection "
+              "mode): a share claimed under another identifier would be aggregated — %s" % why, f.loc,
+              {"form": r["kind"]} if r else None)
+    ctx.check(r is not None, "PROV", f.key, "G-ids:all-closure-implies-share-present",
               "in some cheater-detection mode the identifier pre-check of aggregate_custom can succeed for a signer whose "
               "identifier has no share filed under it: a share claimed under another identifier would be aggregated", f.loc)
 
